@@ -284,6 +284,8 @@ def expr_json(n):
         return {"e": "list", "v": [expr_json(x) for x in n.elts]}
     if isinstance(n, ast.Tuple):
         return {"e": "tuple", "v": [expr_json(x) for x in n.elts]}
+    if isinstance(n, ast.Set):
+        return {"e": "set", "v": [expr_json(x) for x in n.elts]}
     if isinstance(n, ast.Dict) and all(k is not None for k in n.keys):
         return {"e": "dict", "v": [[expr_json(k), expr_json(v)] for k, v in zip(n.keys, n.values)]}
     return {"e": "other", "v": ast.dump(n)[:200]}
